@@ -79,6 +79,10 @@ func C01(c *run.Ctx) int {
 func c01Case(c *run.Ctx, seed uint64, nIn int, opts []spvOpt) run.Outcome {
 	prog := cases.Generate(seed, execCfg())
 	o := c01Eval(prog, seed, nIn, opts)
+	if o.V == run.Violated && c.KnownMatch(o.Class, o.Reason) {
+		// a listed finding that cannot be gated in the generator (attributed by trap class)
+		return run.Outcome{V: run.Held, Sig: "known:" + o.Class, Trivial: true, Cov: map[string]int{"known-finding-instances:" + o.Class: 1}}
+	}
 	if o.V == run.Violated && c.TakeReduceSlot() {
 		class := o.Class
 		wgen.Reduce(prog.M, func() bool {
